@@ -26,6 +26,7 @@ KEY = '@C05| '
 CMP = '@C01,C13| '
 INV = lambda i, j: [
     'legal_position(board)', '2 <= i <= 10' if j == '2' else '2 <= i < 10',
+    '@C01| move_gen_mode == MoveGenerationMode::AllMoves', '@C13| move_gen_mode == MoveGenerationMode::CapturesOnly',
     KEY + 'key_ok(board, zobrist_hasher)',
     KEY + 'forall|k: int| 0 <= k < new_moves@.len() ==> key_ok(#[trigger] &new_moves@[k], zobrist_hasher)',
     SND + 'forall|k: int| 0 <= k < new_moves@.len() ==> succ_correct(board, #[trigger] &new_moves@[k])',
